@@ -361,6 +361,17 @@ def _snap(obj, is_tbl):
             "names": [V.enc(n) for n in obj.column_names()], "rr": obj._repr_rows, "shape": list(obj.shape)}
 
 
+def _same_contents(a, b, is_tbl):
+    """snapshots agree on everything but the fingerprint MEMO (a mutable cell changed in place leaves it as it was)"""
+    def strip(x):
+        if isinstance(x, dict):
+            return {k: strip(v) for k, v in x.items() if k != "fp"}
+        if isinstance(x, list):
+            return [strip(v) for v in x]
+        return x
+    return strip(_snap(a, is_tbl)) == strip(_snap(b, is_tbl))
+
+
 def _with_past(case):
     """the case's object, but one that was printed before while it held other contents (None if that cannot be done)"""
     from serif import Table, Vector
@@ -427,7 +438,7 @@ def observe(case):
         if is_tbl:
             cols = [Vector([_dec(x) for x in vals], name=None if nm is None else _dec(nm)) for nm, vals in case["cols"]]
             obj = Table(cols) if cols else Table()
-            if obj0 is not None and isinstance(obj0, Table) and _snap(obj0, True) == _snap(obj, True):
+            if obj0 is not None and isinstance(obj0, Table) and _same_contents(obj0, obj, True):
                 fresh_obj = obj
                 obj, cols = obj0, list(obj0.cols())
                 out["past_ok"] = True
@@ -446,7 +457,7 @@ def observe(case):
             if case.get("dtype"):
                 kw["dtype"] = {"int": int, "float": float, "str": str}[case["dtype"]]
             obj = Vector([_dec(x) for x in case["vals"]], name=None if case["name"] is None else _dec(case["name"]), **kw)
-            if obj0 is not None and not isinstance(obj0, Table) and _snap(obj0, False) == _snap(obj, False):
+            if obj0 is not None and not isinstance(obj0, Table) and _same_contents(obj0, obj, False):
                 fresh_obj = obj
                 obj = obj0
                 out["past_ok"] = True
